@@ -668,6 +668,9 @@ impl Harness {
             self.sim.settle().await;
         }
         let hi = self.sim.now_micros();
+        if self.verbose {
+            eprintln!("[op {}] send result {:?}, faults fired {}", self.op_index, result.as_ref().err(), self.sim.inner.fs.borrow().fired.len() - fired_before);
+        }
         if self.opts.disk_faults {
             self.sim.arm_faults(false);
             if self.sim.inner.fs.borrow().fired.len() > fired_before {
@@ -753,6 +756,11 @@ impl Harness {
         let mut offset_advanced: Vec<u32> = Vec::new();
         for p in &partition_ids {
             let pm = &topic_model.partitions[p];
+            if pm.tainted && !candidates.contains(p) {
+                // its content is uncertain (an earlier fault or an unfaithful restart): it cannot tell where
+                // this send went
+                continue;
+            }
             let from = pm.msgs.len() as u64;
             // observed through the administrator's connection: the sender may not be allowed to poll
             let client = match self.client(0) {
@@ -774,6 +782,9 @@ impl Harness {
         }
         let mut targets: BTreeSet<u32> = landed.iter().map(|(p, _)| *p).collect();
         targets.extend(offset_advanced.iter().copied());
+        if self.verbose {
+            eprintln!("[op {}] landed in {:?}, candidates {:?}, model lens {:?}", self.op_index, targets, candidates, topic_model.partitions.iter().map(|(k, v)| (*k, v.msgs.len(), v.tainted)).collect::<Vec<_>>());
+        }
         if !ok(&result) {
             if !targets.is_empty() {
                 self.violate("C01", "rejected_send_consumes_nothing", "stored_after_error", format!("send failed with {:?} but partitions {targets:?} of {sid}/{tid} advanced", result.as_ref().err()));
@@ -921,6 +932,9 @@ impl Harness {
                 (Some((msgs, ..)), None) => msgs,
                 _ => &[],
             };
+            if self.verbose {
+                eprintln!("[resync] {sid}/{tid}/{pid}: from {from}, model {} msgs, served {:?}, extras ids {:?}, allowed ids {:?}", pm.msgs.len(), brief(&offsets), extras.iter().map(|m| m.id).collect::<Vec<_>>(), allowed.iter().map(|m| m.id).collect::<Vec<_>>());
+            }
             let prefix_ok = extras.len() <= allowed.len() && extras.iter().zip(allowed.iter()).all(|(got, want)| (want.id == 0 || got.id == want.id) && got.payload.as_ref() == want.payload().as_slice());
             if !prefix_ok {
                 self.violate("C01", "nothing_foreign_after_disk_error", "unexpected_messages@disk_fault", format!("partition {sid}/{tid}/{pid}: after an operation hit by a disk error {} new messages appeared that are not a prefix of the send in question ({} sent)", extras.len(), allowed.len()));
@@ -1381,7 +1395,8 @@ impl Harness {
                     if info.partition_id != p {
                         self.violate("C07", "get_partition_id", "wrong_partition", format!("asked {p} got {}", info.partition_id));
                     }
-                    if info.current_offset != current {
+                    let uncertain = self.model.streams.get(&sid).and_then(|s| s.topics.get(&tid)).and_then(|t| t.partitions.get(&p)).map(|x| x.tainted).unwrap_or(true);
+                    if info.current_offset != current && !uncertain {
                         self.violate("C01", "current_offset", "offset_info", format!("offset info of {sid}/{tid}/{p} reports current {} model {current}", info.current_offset));
                     }
                 }
